@@ -12,3 +12,72 @@ def run(ck):
     extra = getattr(tables, 'D_EXTRA', {}).get('C04')
     if extra:
         extra(ck, w)
+    v1_padding_flag(ck, w)
+    v2_div_rem_wrap(ck, w)
+
+
+def v1_padding_flag(ck, w):
+    """VectorGadget::padding_flag: the start of the data can be the first position of the last chunk"""
+    from ..core import walk, peel, callee, expr_str
+    from ..engines import hirq
+    ck.rule('C04.V1', 'VectorGadget::padding_flag compares `start` with every position it can take: data of length 0 < len <= A lies entirely in the last chunk and '
+                      'starts at position M - A, so the iteration that tests `start == i` must include M - A (inclusive range).  With the exclusive range the '
+                      'flags of such vectors are inverted in the last chunk: is_equal ignores the data and compares the filler.')
+    fs = [f for f in w.all_fns(['circuits']) if f['name'] == 'padding_flag' and f['file'].endswith('vec/vector_gadget.rs')]
+    if not fs:
+        ck.bad('C04.V1', 'padding_flag:anchor', 'VectorGadget::padding_flag not found (anchor)')
+        return
+    f = fs[0]
+    verdict, why = None, 'no iteration testing `start` found'
+    for n in walk(f['body']):
+        if n.get('k') == 'mcall' and n.get('m') in ('map', 'try_for_each', 'for_each') and any(peel(a).get('k') == 'closure' for a in n.get('args', [])):
+            tests_start = any((m.get('m') == 'is_equal_to_fixed' or (callee(m) or '').endswith('is_equal_to_fixed')) and
+                              any(x.get('k') == 'local' and x.get('n') == 'start' for a in m.get('args', []) for x in walk(a))
+                              for a in n['args'] for m in hirq.calls(a))
+            if not tests_start:
+                continue
+            r = peel(n['recv'])
+            if r.get('k') == 'struct' and (r.get('p') or '').endswith('RangeInclusive'):
+                verdict, why = True, f'inclusive range {expr_str(r)[:40]}'
+            elif r.get('k') == 'call' and 'RangeInclusive' in (callee(r) or ''):
+                verdict, why = True, 'inclusive range'
+            elif r.get('k') == 'struct' and (r.get('p') or '').endswith('ops::range::Range'):
+                end = dict(r.get('fs', [])).get('end')
+                es = expr_str(peel(end)) if end else '?'
+                excl_m_a = end is not None and peel(end).get('k') == 'bin' and peel(end).get('op') == '-' and es.count('::M') + es.count('::A') >= 2
+                verdict, why = (not excl_m_a), f'exclusive range ending at {es[-40:]}'
+            else:
+                verdict, why = False, f'unrecognised iteration domain {expr_str(r)[:40]}'
+    ck.record('C04.V1', 'padding_flag:start-domain', bool(verdict), f'`start` is tested over an {why}',
+              f'VectorGadget::padding_flag tests `start == i` over an {why}: position M - A is never tested, vectors with 0 < len <= A get inverted flags',
+              hirq.fn_loc(f))
+
+
+def v2_div_rem_wrap(ck, w):
+    """DivisionInstructions::div_rem: divisor * q + r must not be able to wrap around the field modulus"""
+    from ..core import walk, peel, pat_bindings
+    from ..engines import hirq, valflow
+    ck.rule('C04.V2', 'DivisionInstructions::div_rem excludes wrap-around: with r < divisor and q <= bound / divisor the integer divisor*q + r reaches '
+                      'bound - (bound mod divisor) + divisor - 1; the equation dividend == divisor*q + r is checked in the field, so the routine must guard '
+                      '(assert or constrain) that this maximum stays below the modulus — a condition that combines the divisor with the dividend bound '
+                      'arithmetically (bound + divisor, q_bound * divisor, …) and compares the result.  Without it a second (q, r) exists for small dividends.')
+    fs = [f for f in w.all_fns(['circuits']) if f['name'] == 'div_rem' and f['file'].endswith('instructions/division.rs')]
+    if not fs:
+        ck.bad('C04.V2', 'div_rem:anchor', 'DivisionInstructions::div_rem not found (anchor)')
+        return
+    f = fs[0]
+    src = [(b['n'], b['i'], b.get('t')) for p in f['params'] for b in pat_bindings(p) if b['n'] in ('divisor', 'dividend_bound')]
+    vf = valflow.ValFlow(f, sources=src)
+    guard = False
+    for n in walk(f['body']):
+        if n.get('k') != 'bin' or n.get('op') not in ('<', '<=', '>', '>='):
+            continue
+        for side in (n['a'], n['b']):
+            for x in walk(side):
+                if (x.get('k') == 'bin' and x.get('op') in ('+', '*', '-')) or (x.get('k') == 'mcall' and x.get('m') in ('checked_add', 'checked_mul', 'add', 'mul')):
+                    d = set(vf.ev(x))
+                    if 'divisor' in d and ('dividend_bound' in d or len(d) >= 1):
+                        guard = True
+    ck.record('C04.V2', 'div_rem:no-wrap-guard', guard, 'a guard combines divisor and bound arithmetically and compares the result',
+              'DivisionInstructions::div_rem has no guard that divisor * q + r stays below the modulus: with the default bound (None = p - 1) the sum wraps, e.g. '
+              'dividend 0, divisor 2 admits (q, r) = ((p-1)/2, 1)', hirq.fn_loc(f))
